@@ -458,6 +458,7 @@ pub struct DetResult {
     pub steps: usize,
     pub schedule: Vec<usize>,
     pub finished: Vec<bool>,
+    pub decisions: Vec<Decision>,
 }
 
 pub struct Rng(pub u64);
@@ -492,6 +493,18 @@ pub enum Sched<'a> {
     },
     /// explicit list of actor indices; when exhausted (or the wanted actor is not enabled) falls back to the first enabled
     Fixed(&'a [usize], usize),
+    /// follow the prefix of (actor, is_timeout) choices, then run without preemption: keep the running actor while it
+    /// is enabled, else the lowest enabled one (time-outs only when nothing else is enabled)
+    Prefix(&'a [(usize, bool)], usize),
+}
+
+/// one scheduling decision of a finished run (for systematic exploration)
+#[derive(Clone, Debug)]
+pub struct Decision {
+    pub enabled: Vec<usize>,
+    pub timeouts: Vec<usize>,
+    pub chosen: (usize, bool),
+    pub last: Option<usize>,
 }
 
 pub type Actor = Box<dyn FnOnce() + Send + 'static>;
@@ -547,6 +560,7 @@ pub fn run_det(names: &[String], actors: Vec<Actor>, sched: &mut Sched, max_step
     }
     let mut steps = 0usize;
     let mut schedule = vec![];
+    let mut decisions: Vec<Decision> = vec![];
     let mut last: Option<usize> = None;
     let mut deadlock = None;
     let mut budget = false;
@@ -620,7 +634,25 @@ pub fn run_det(names: &[String], actors: Vec<Actor>, sched: &mut Sched, max_step
                     }
                 }
             }
+            Sched::Prefix(list, pos) => {
+                let want = list.get(*pos).copied();
+                *pos += 1;
+                match want {
+                    Some((w, false)) if en.contains(&w) => (w, false),
+                    Some((w, true)) if tmo.contains(&w) => (w, true),
+                    _ => {
+                        if let Some(l) = last.filter(|l| en.contains(l)) {
+                            (l, false)
+                        } else if let Some(&t) = en.first() {
+                            (t, false)
+                        } else {
+                            (tmo[0], true)
+                        }
+                    }
+                }
+            }
         };
+        decisions.push(Decision { enabled: en.clone(), timeouts: tmo.clone(), chosen: (t, is_timeout), last });
         if let St::Parked(a, d) = c.st[t] {
             if is_timeout {
                 c.park_result[t] = false;
@@ -655,5 +687,6 @@ pub fn run_det(names: &[String], actors: Vec<Actor>, sched: &mut Sched, max_step
         panics: c.panics,
         steps,
         schedule,
+        decisions,
     }
 }
